@@ -212,6 +212,26 @@ def main():
         tc, tp = C[ki](), PY[ki]()
         try:
             for a in hist:
+                if a is hist[-1]:
+                    # before the split: every bounded query on the two trees with the loose separator, side by side
+                    def q(t, name, r):
+                        try:
+                            x = getattr(t, name)(emb.key(r))
+                            return emb.rk(x)
+                        except ValueError:
+                            return 'ValueError'
+                    def rng_(t, **kw):
+                        return [emb.rk(x) for x in t.keys(**kw)]
+                    for r in range(1, 7):
+                        for name in ('minKey', 'maxKey'):
+                            if q(tc, name, r) != q(tp, name, r):
+                                diffs.append(dict(event=dict(op='loose-' + name, k=r), what='result', c=q(tc, name, r), py=q(tp, name, r)))
+                        for kw in (dict(min=emb.key(r)), dict(max=emb.key(r)), dict(min=emb.key(r), excludemin=True), dict(max=emb.key(r), excludemax=True)):
+                            if rng_(tc, **kw) != rng_(tp, **kw):
+                                diffs.append(dict(event=dict(op='loose-keys', k=r), what='result', c=rng_(tc, **kw), py=rng_(tp, **kw)))
+                        if (emb.key(r) in tc) != (emb.key(r) in tp):
+                            diffs.append(dict(event=dict(op='loose-contains', k=r), what='result', c=emb.key(r) in tc, py=emb.key(r) in tp))
+                        counts['calls'] += 7
                 ap(tc, emb, a, 0)
                 ap(tp, emb, a, 0)
             same_items = [emb.rk(x) for x in tc.keys()] == [emb.rk(x) for x in tp.keys()]
